@@ -187,7 +187,8 @@ def stepOuts {P : Params} (σ : Sys P) : Action P → List Out
 theorem step_log {P : Params} (σ : Sys P) (a : Action P) : (step σ a).log = σ.log ++ bcasts (stepOuts σ a) := by
   cases a <;> rfl
 
-/-- TIMING: a delivered round-change that completes a round-change quorum does so in its own round -/
+/-- TIMING: a delivered (valid) round-change that completes the round-change quorum of its round is not for a future
+    round of the receiving instance -/
 def TimelyAction {P : Params} (σ : Sys P) : Action P → Prop
   | .deliver i m => ∀ s, instAt P.height (σ.ctrl i) = some s → RcQuorumInRound (P.cfg i) s m
   | _ => True
@@ -279,24 +280,24 @@ theorem step_nstepG {P : Params} (hP : P.Valid) (σ : Sys P) (hinv : Inv P hP σ
     (hen : enabled σ a = true) (hg : GatedAction a) :
     ∃ (i : Op P) (c' : Ctrl) (outs : List Out) (evs : List (Ev (Op P))), P.honest i = true ∧
       step σ a = σ.update i c' outs evs ∧
-      NStep (P.cfg i) P.height (fun m => authentic P σ.log m = true ∧ Gated m) i (instAt P.height (σ.ctrl i))
+      NStep (P.cfg i) P.height (fun m => (authentic P σ.log m = true ∧ m.ident = ownIdent) ∧ Gated m) i (instAt P.height (σ.ctrl i))
         (instAt P.height c') (bcasts outs) evs := by
   cases a with
   | start i v =>
     have hi : P.honest i = true := hen
-    obtain ⟨h1, h2⟩ := ctrl_start_node (P.cfg i) P.height (fun m => authentic P σ.log m = true ∧ Gated m) i (σ.ctrl i) v
+    obtain ⟨h1, h2⟩ := ctrl_start_node (P.cfg i) P.height (fun m => (authentic P σ.log m = true ∧ m.ident = ownIdent) ∧ Gated m) i (σ.ctrl i) v
       (hinv.shape i) (capacity_pos P i)
     exact ⟨i, _, _, _, hi, rfl, h2⟩
   | deliver i m =>
     have hen' : P.honest i = true ∧ authentic P σ.log m = true := by
       simpa [enabled] using hen
-    obtain ⟨h1, h2⟩ := ctrl_processMsg_node (P.cfg i) P.height (fun m => authentic P σ.log m = true ∧ Gated m) i (σ.ctrl i) m
-      (hinv.shape i) (capacity_pos P i) ⟨hen'.2, hg⟩
-      (fun hv _ => (cert_facts hP hinv.log i m hv hen'.2).height)
+    obtain ⟨h1, h2⟩ := ctrl_processMsg_node (P.cfg i) P.height (fun m => (authentic P σ.log m = true ∧ m.ident = ownIdent) ∧ Gated m) i (σ.ctrl i) m
+      (hinv.shape i) (capacity_pos P i) (fun hid => ⟨⟨hen'.2, hid⟩, hg⟩)
+      (fun hv hid => (cert_facts hP hinv.log i m hv hen'.2 hid).height)
     exact ⟨i, _, _, _, hen'.1, rfl, h2⟩
   | timeout i r =>
     have hi : P.honest i = true := hen
-    obtain ⟨h1, h2⟩ := ctrl_onTimeout_node (P.cfg i) P.height (fun m => authentic P σ.log m = true ∧ Gated m) i (σ.ctrl i) r
+    obtain ⟨h1, h2⟩ := ctrl_onTimeout_node (P.cfg i) P.height (fun m => (authentic P σ.log m = true ∧ m.ident = ownIdent) ∧ Gated m) i (σ.ctrl i) r
       (hinv.shape i)
     exact ⟨i, _, _, _, hi, rfl, h2⟩
 
